@@ -33,4 +33,11 @@ PROPS = {
         "trusted_base": COMMON_TB + ["Go slice/append semantics modelled as list operations (no aliasing)"],
         "assumptions": ["pool items have pairwise distinct identity (premise of the property); IRI lists have no Remove (their item-list view is a converting copy)"],
     },
+    "C10": {
+        "level_text": "Lean 4 theorems for ALL lists of columns, any key function and any equivalence on ids: the index-collecting/reverse-sorted-deleting loop of ItemCollectionDeduplication (transcribed with its missing break and with the slice-bounds panic as an explicit outcome) never panics and refines 'keep first mentions'; the result list is the first mentions in scan order, pairwise inequivalent, complete, sound, and equals the ids of the surviving entries in order; each column becomes a sublist keeping all nil/non-addressable entries; Block removal leaves no equivalent entry and keeps nil entries. A kernel-decided counterexample shows the equivalence premise (C14) is needed. The argument lists of all 14 Recipients() methods and of removeFromAudience are regenerated from the Go source on every run and checked by `decide` against the prescribed order.",
+        "level_note": "Trusted: Lean kernel (propext, Quot.sound, Classical.choice), the go/ast translator for the argument lists (unknown shapes fail closed), Go harness with an independent first-mention oracle. IRI equality being an equivalence on the addressees is a hypothesis here (C14). The edit of the audience backing array through the `aud` copy is outside the statement and not modelled.",
+        "technique": "Lean 4 proof: refinement of the index-deletion loop to a first-mention filter by structural induction (invariant: rec pairwise inequivalent => each index marked at most once); regenerated argument tables checked by kernel decide; correspondence by bounded-exhaustive and random differential testing over all 14 implementers",
+        "trusted_base": COMMON_TB + ["extract/ translator (go/ast) for Recipients argument lists", "Go slice aliasing not modelled"],
+        "assumptions": ["IRI equality (scheme ignored) is an equivalence relation on the addressees' ids (C14)", "embedded addressees carry ids"],
+    },
 }
